@@ -47,13 +47,13 @@ def gen_tree(rng):
             continue
         have.add(tuple(d))
         nodes.append({"path": {"segs": ["proj"] + d}, "type": "dir"})
-        tree.append({"p": d, "ty": "dir"})
+        tree.append({"p": d, "ty": "dir", "to": ""})
     files = []
     for d in [[]] + [list(h) for h in have]:
         for n in rng.sample(FILE_NAMES, rng.randint(0, 5)):
             nb = name_bytes(n)
             nodes.append({"path": {"segs": ["proj"] + d + [comp_json(nb)]}, "type": "file", "content": n})
-            tree.append({"p": d + [lossy(nb)], "ty": "file"})
+            tree.append({"p": d + [lossy(nb)], "ty": "file", "to": ""})
             files.append(d + [n])
     # elsewhere: real files reachable only through links
     nodes.append({"path": {"segs": ["elsewhere", "d", "sub"]}, "type": "dir"})
@@ -62,18 +62,18 @@ def gen_tree(rng):
     nodes.append({"path": {"segs": ["elsewhere", "d", "sub", "y.o"]}, "type": "file", "content": "y"})
     links = []
     if rng.random() < 0.5:
-        links.append((["linkdir"], "../elsewhere/d"))
+        links.append((["linkdir"], "../elsewhere/d", "dir"))
     if ("src",) in have and rng.random() < 0.4:
-        links.append((["src", "inner"], "../../elsewhere/d/sub"))
+        links.append((["src", "inner"], "../../elsewhere/d/sub", "dir"))
     if ("src",) in have and rng.random() < 0.4:
-        links.append((["src", "lf.txt"], "../../elsewhere/d/keep.txt"))
+        links.append((["src", "lf.txt"], "../../elsewhere/d/keep.txt", "file"))
     if ("out",) in have and rng.random() < 0.4:
-        links.append((["out", "latest.o"], "../../elsewhere/d/x.o"))
+        links.append((["out", "latest.o"], "../../elsewhere/d/x.o", "file"))
     if rng.random() < 0.3:
-        links.append((["dangling.txt"], "nowhere/at/all"))
-    for p, to in links:
+        links.append((["dangling.txt"], "nowhere/at/all", "none"))
+    for p, to, kind in links:
         nodes.append({"path": {"segs": ["proj"] + p}, "type": "link", "to": to})
-        tree.append({"p": p, "ty": "link"})
+        tree.append({"p": p, "ty": "link", "to": kind})
     return nodes, tree, sorted(have), files
 
 
